@@ -333,7 +333,7 @@ func (f *Frame) applyContract(ct *Contract, fn *ssa.Function, sig *types.Signatu
 				}
 				for _, rq := range sc.Requires {
 					g := f.evalClause(rq, senv, st, st)
-					un.obligeNamed(st, fmt.Sprintf("site:%s#%d@%s", shortFn(name), rq.Idx, un.posOf(pos)), "callsite", rq.Text, un.posOf(pos), g)
+					un.obligeNamed(st, fmt.Sprintf("site:%s#%s@%s", shortFn(name), rq.label(), un.posOf(pos)), "callsite", rq.Text, un.posOf(pos), g)
 				}
 			}
 		}
@@ -344,7 +344,7 @@ func (f *Frame) applyContract(ct *Contract, fn *ssa.Function, sig *types.Signatu
 			un.assume(st, g)
 		} else {
 			un.ord["call"]++
-			un.obligeNamed(st, fmt.Sprintf("pre:%s#%d@%s", shortFn(name), rq.Idx, un.posOf(pos)), "precondition", rq.Text, un.posOf(pos), g)
+			un.obligeNamed(st, fmt.Sprintf("pre:%s#%s@%s", shortFn(name), rq.label(), un.posOf(pos)), "precondition", rq.Text, un.posOf(pos), g)
 		}
 	}
 	old := st.clone()
